@@ -177,6 +177,29 @@ def eval_alt(args):
 _S = {}
 
 
+TYPELESS = f'''<xs:schema xmlns:xs="http://www.w3.org/2001/XMLSchema"><xs:element name="hs" type="xs:int"/><xs:element name="ms" substitutionGroup="hs"/><xs:element name="ms2" substitutionGroup="ms"/>
+ <xs:element name="hc"><xs:complexType><xs:sequence><xs:element name="x" minOccurs="0"/></xs:sequence><xs:attribute name="k" type="xs:int" use="required"/></xs:complexType></xs:element>
+ <xs:element name="mc" substitutionGroup="hc"/><xs:element name="mc2" substitutionGroup="mc"/>
+ <xs:element name="r"><xs:complexType><xs:choice maxOccurs="unbounded"><xs:element ref="hs"/><xs:element ref="hc"/></xs:choice></xs:complexType></xs:element></xs:schema>'''
+TYPELESS_DOCS = [('{t} bogus="1">5</{t}', False, 's'), ('{t}>5</{t}', True, 's'), ('{t}>x</{t}', False, 's'), ('{t}><y/></{t}', False, 's'),
+                 ('{t}/', False, 'c'), ('{t} k="x"/', False, 'c'), ('{t} k="1" z="2"/', False, 'c'), ('{t} k="1"><x/></{t}', True, 'c'), ('{t} k="1"><y/></{t}', False, 'c'), ('{t} k="01"/', True, 'c')]
+
+
+def eval_typeless(ver):
+    """a substitution-group member declared without a type has the type of its head (one or two levels up): content AND attributes are validated against that type, as root and in place of the head"""
+    s = _cls(ver)(TYPELESS); bad = []; n = 0
+    for tmpl, exp, kind in TYPELESS_DOCS:
+        for tag in (('hs', 'ms', 'ms2') if kind == 's' else ('hc', 'mc', 'mc2')):
+            for wrap in (False, True):
+                n += 1
+                inner = '<' + tmpl.format(t=tag) + '>'
+                d = f'<r>{inner}</r>' if wrap else inner
+                try: got = s.is_valid(d)
+                except Exception as e: got = 'raised ' + type(e).__name__
+                if got != exp: bad.append(dict(ver=ver, doc=d, got=got, exp=exp))
+    return n, bad
+
+
 def run(tier, seed, open_findings):
     allc = list(configs())
     sel, exhaustive = part(allc, tier, seed, 6)
@@ -189,6 +212,9 @@ def run(tier, seed, open_findings):
     sjobs = [(ver, hb, ma, tb) for ver in ('1.0', '1.1') for hb in (None, 'substitution', 'extension', 'restriction', '#all') for ma in (False, True) for tb in (None, 'extension')]
     sres = pmap(eval_subst, sjobs)
     sf = [dict(case=dict(doc=b['doc'], head_block=b['head_block'], m1_abstract=b['m1_abstract'], type_block=b['type_block'], ver=j[0]), observed=dict(valid=b['got']), required=dict(valid=b['exp'])) for r, j in zip(sres, sjobs) for b in r['bad']]
+    tl = [eval_typeless(ver) for ver in ('1.0', '1.1')]
+    out.append(result('C07.typeless_substitution_members', 'members without a type of a simple-typed and of a complex-typed head (one and two levels), as root and in place of the head x 10 contents x 2 classes', sum(n for n, _ in tl),
+                      [dict(case=dict(typeless=True, ver=b['ver'], doc=b['doc']), observed=dict(valid=b['got']), required=dict(valid=b['exp'])) for _, bs in tl for b in bs], exhaustive=True))
     out.append(result('C07.substitution_groups', f'{len(sjobs)} (class, head block, abstract member, type block) configurations x 12 instances', sum(r['cases'] for r in sres), sf, exhaustive=True,
                       samples=[dict(doc='<r><m2>...</m2></r>', head_block='substitution')]))
     ajobs = list(alt_docs())
@@ -200,6 +226,8 @@ def run(tier, seed, open_findings):
 
 
 def replay(check_name, case):
+    if case.get('typeless'):
+        n, bad = eval_typeless(case['ver']); mine = [b for b in bad if b['doc'] == case['doc']]; return dict(ok=not mine, observed=mine[:1], required='validated against the type of the head')
     import xmlschema
     if case.get('alt'):
         r = eval_alt((case['doc'], case['exp'])); return dict(ok=r is None, observed=r, required='governing type = first alternative whose test holds')
